@@ -16,5 +16,5 @@ for e in data["findings"]:
         if not e.get("replay"):
             print("WARNING: %s has no replay witnesses" % e["id"])
         n += 1
-json.dump(data, open(path, "w"), indent=1, sort_keys=True)
+json.dump(data, open(path, "w"), indent=1)
 print("flipped", n, "entries in", path)
